@@ -16,7 +16,12 @@ THEOREMS = ["Names.resolve_direct_import", "Names.resolve_module_alias", "Names.
             "Names.relative_level_c04", "Names.expand_total",
             # the code that BUILDS the alias maps (PdModel/Imports.lean) against CPython's import machinery (PdModel/PyImp.lean)
             "Imports.resolve_sound_partial", "Imports.resolve_from_definer", "Imports.resolve_via_module_alias",
-            "Imports.resolve_sound_unbound_counterexample", "Imports.alias_of_stmt", "Imports.def_registered",
+            "Imports.resolve_sound_unbound_counterexample", "Imports.resolve_order_independent",
+            # the lemmas they rest on
+            "Imports.WF.facts", "Imports.jpy_fun", "Imports.jpd_jpy", "Imports.canon_site", "Imports.site_unique",
+            "Imports.visitStmt_ok", "Imports.visitStmts_ok", "Imports.processModule_ok", "Imports.run_ok",
+            "Imports.execStmt_ok", "Imports.execStmts_ok", "Imports.ensure_ok", "Imports.run_py_ok", "Imports.pyDenotes_j",
+            "Imports.expand_sound", "Imports.resolve_sound_state", "Imports.alias_of_stmt", "Imports.def_registered",
             "Imports.walk_path"]
 RULE = ("generated acyclic multi-package projects (globally unique definition names, one binding per name per scope; plain, "
         "aliased, from, relative, star imports, package re-imports, imports in class bodies, nested classes, subclasses). CPython "
@@ -443,6 +448,64 @@ def run(ctx: Ctx) -> None:
                   list(range(n - 1, -1, -1)))
         ctx.count("pyimp:reverse-order")
     compare_lines(ctx, "pyimp-run-reversed", p_reqs, p_impl, p_pay)
+    run_reexports(ctx)
+    replay_witnesses(ctx)
+
+
+def run_reexports(ctx: Ctx) -> None:
+    """the re-export scenarios of C07 (definer, one re-exporter, consumers; plain / renamed / star / repeated imports)
+    under every reachable processing order: the Lean model of the BUILDING code, `_handleReExport` and `reparent` included,
+    against the real System (registry, contents, alias maps, resolutions of the old and the new names)"""
+    from .c07 import gen_project, orders
+    reqs, impls, pay = [], [], []
+    for _ in range(25 if ctx.quick else 400):
+        units, meta = gen_project(ctx.rng)
+        src = {u.qname: u.source for u in units}
+        try:
+            toks, info = abstract_project(units, pd_only=True)
+        except Unsupported as e:
+            ctx.count("reexport:unsupported:" + str(e))
+            continue
+        ctx.count("reexport:scenarios")
+        ctx.count("reexport:import:" + meta["import"])
+        names = ["X", "Y", "XD", "XR", "Other", "X.m", "XD.m", "XR.Inner", "Y.Inner.im"] + \
+            [c["alias"] for c in meta["consumers"] if c["alias"]] + ["pkg._b.X", "pkg.X", "pkg.api.X", "pkg.Y", "pkg._b.X.m"]
+        for order in orders(units, ctx.rng, 4 if ctx.quick else 8):
+            try:
+                system, mods, dup = build_real(units, order)
+            except Exception as e:
+                reqs.append("imports build " + " ".join(toks) + " O|" + ",".join(map(str, order)) + " ?")
+                impls.append(None)
+                pay.append({"units": src, "order": order, "raised": "%s: %s" % (type(e).__name__, e)})
+                continue
+            qs, ans = [], []
+            for m in range(len(units)):
+                for dotted in names:
+                    qs.append("R|%d|-|%s" % (m, enc(dotted)))
+                    ans.append(pd_answer(mods[m], dotted))
+            reqs.append("imports build " + " ".join(toks) + " O|" + ",".join(map(str, order)) + " ? " + " ".join(qs))
+            impls.append("ok bad=%s | %s | %s" % ("true" if dup else "false", pd_dump(system), " ".join(ans)))
+            pay.append({"units": src, "order": order})
+            ctx.count("reexport:orders")
+    compare_lines(ctx, "imports-build-reexports", reqs, impls, pay)
+
+
+def replay_witnesses(ctx: Ctx) -> None:
+    """the concrete witness of Imports.resolve_sound_unbound_counterexample (PdProps/C04.lean) on the real pydoctor and
+    the real CPython: pydoctor's star import takes the name of a package's submodule that Python has not imported yet"""
+    units = [Unit("pa", True, "", None), Unit("pa.m1", False, "", "pa"), Unit("top", False, "from pa import *\n", None)]
+    system, mods, _ = build_real(units)
+    r = mods[2].resolveName("m1")
+    pd = None if r is None else r.fullName()
+    py = run_cpython([{"files": files_of(units), "modules": ["top", "pa", "pa.m1"], "sites": True}])[0]
+    bound = "m1" in (py.get("sites") or {}).get("top", {})
+    ctx.traces_validated += 1
+    if pd == "pa.m1" and not py.get("error") and not bound:
+        ctx.count("witness:unbound-star-submodule:confirmed")
+    else:
+        ctx.disagree("witness-unbound", {"units": {u.qname: u.source for u in units}},
+                     "pydoctor resolves top.m1 to pa.m1; Python (import order top, pa, pa.m1) does not bind top.m1",
+                     "pydoctor: %r; python error: %r; bound: %r" % (pd, py.get("error"), bound))
 
 
 def defined_in_aliased(g: BindGen, scope: str, dotted: str, system) -> bool:
